@@ -629,6 +629,8 @@ func runErrMap(c map[string]any) (any, error) {
 		return c12RunCtxProbe(c)
 	case "wireprobe":
 		return c12RunWireProbe(c)
+	case "epprobe":
+		return c12RunEndpointProbe(c)
 	case "svc":
 		return c12RunServices(c)
 	case "cfgkeys":
